@@ -11,6 +11,7 @@
 /// 6.  Unlink the files logged in 4.
 /// 7.  Log to remove every file listed in 4's edit.
 use std::cmp::Ordering;
+use std::collections::HashSet;
 use std::fs::{read_dir, remove_file};
 use std::path::{Path, PathBuf};
 
@@ -91,7 +92,11 @@ impl LsmVerifier {
         assert!(self.mani.strs().count() == 0);
         // 2.  Collect the list of ssts and logs to be removed.  Wait until all are present.
         let verifier_setsum = setsum_from_info_default('O', self.mani.info('O'))?;
-        let (output_setsum, ssts_to_rm, logs_to_rm) = self.verify_one(entry, verifier_setsum)?;
+        let (output_setsum, mut ssts_to_rm, logs_to_rm) =
+            self.verify_one(entry, verifier_setsum)?;
+        // An sst that a later fragment adds again is not this fragment's to unlink.
+        let added_later = self.added_after(entry)?;
+        ssts_to_rm.retain(|sst| !added_later.contains(sst));
         let mut edit = Edit::default();
         for sst in ssts_to_rm.iter() {
             let path = TRASH_SST(&self.root, *sst);
@@ -197,6 +202,15 @@ impl LsmVerifier {
                 computed_discard += setsum;
                 ssts_to_remove.push(setsum);
             }
+            // NOTE:  File names are content-addressed, so a compaction can write an sst that it
+            // (or an earlier edit) removes; the edit then carries both -X and +X and the manifest
+            // applies the removal first.  Such an sst is in use and never reaches the trash on
+            // account of the earlier removal.
+            for added in edit.added() {
+                if let Some(setsum) = Setsum::from_hexdigest(added) {
+                    ssts_to_remove.retain(|sst| *sst != setsum);
+                }
+            }
             if !first {
                 if let Some(log_num) = edit.get_info('L') {
                     let log_num: u64 = log_num.parse().map_err(|_| {
@@ -224,6 +238,35 @@ impl LsmVerifier {
             )));
         }
         Ok((acc, ssts_to_remove, logs_to_remove))
+    }
+
+    /// The ssts added by the fragments that follow `entry`, the live manifest included.
+    ///
+    /// A compaction can recreate an sst that an earlier fragment removed.  The file in the trash
+    /// (or in the tree) then belongs to the later edits:  It must stay in place until the fragment
+    /// that removes it last has been verified.
+    fn added_after(&self, entry: &PathBuf) -> Result<HashSet<Setsum>, SError> {
+        let log_num = mani::extract_backup(entry);
+        let mut added = HashSet::new();
+        for later in list_mani_fragments(&self.root)? {
+            // NOTE:  The live manifest has no number and follows every numbered fragment.
+            let later_num = mani::extract_backup(&later);
+            if later_num.is_some() && later_num <= log_num {
+                continue;
+            }
+            for edit in ManifestIterator::open(&later)? {
+                // A torn tail of the live manifest is an edit that did not happen.
+                let Ok(edit) = edit else {
+                    break;
+                };
+                for sst in edit.added() {
+                    if let Some(setsum) = Setsum::from_hexdigest(sst) {
+                        added.insert(setsum);
+                    }
+                }
+            }
+        }
+        Ok(added)
     }
 
     fn verify_gc(&self, edit: &Edit, discard: Setsum) -> Result<(), SError> {
